@@ -108,7 +108,7 @@ def observe_model(m, base_code):
 
 OPS = ([('push', None), ('push', 0), ('push', 1), ('pop', None), ('pop', 0), ('pop', 1)] +
        [('local', n, v) for n in NAMES[:2] for v in range(2)] + [('global', n, v) for n in NAMES[:2] for v in (2,)] +
-       [('let', NAMES[2], NAMES[0]), ('letchar', NAMES[1], 'x')] + [('cat', '@', 11), ('cat', '|', 13), ('cat', '@', 12)])
+       [('let', NAMES[2], NAMES[0]), ('letchar', NAMES[1], 'x'), ('letchar', NAMES[1], 'y')] + [('cat', '@', 11), ('cat', '|', 13), ('cat', '@', 12)])
 
 
 def run_history(ops):
